@@ -104,7 +104,6 @@ def cases(tier, seed):
     full_n, core_n = (3, 4) if tier == 'quick' else (4, 5)
     for h in _histories(full_n, OPS):
         yield {'hist': h}
-    core_srcs = {o[1] for o in CORE}
     for h in _histories(core_n, CORE, only_len=core_n):
         yield {'hist': h}
 
@@ -240,15 +239,16 @@ def _stress(env, origin, replaced, hist, fails, base_n, deep_n):
 
 
 def _note_replaced(env, st0, replaced, name):
-    for n, (o, sid) in st0.items():
-        if env.get(n) is o and id(o._underlying) != sid:
+    for n, (oid, sid) in st0.items():
+        o = env.get(n)
+        if o is not None and id(o) == oid and id(o._underlying) != sid:
             replaced.setdefault(n, {})[sid] = name
 
 
 def _make_step(env, src, name, defs, origin, replaced, hist, fails):
     """Creation / derivation / del step.  Returns False when the rest of the history is undefined.
     (All temporaries live in this frame only: the monitor must not keep dropped objects alive.)"""
-    st0 = {n: (o, id(o._underlying)) for n, o in env.items() if isinstance(o, Vector)}
+    st0 = {n: (id(o), id(o._underlying)) for n, o in env.items() if isinstance(o, Vector)}   # identities only, no references
     try:
         exec(_compiled(src), _G, env)
     except Exception:
